@@ -174,8 +174,9 @@ def _long_cases(b, tier):
     ca = CUSTOM_ALPHABETS[len(b) % 3]
     yield Case("b32encnp", [hx(b), tx(ca)], cls)
     yield Case("b32dec", [tx(Base32Encoder.EncodeNoPadding(b, ca)), tx(ca)], cls)
-    yield Case("convbits", [nats(b), 8, 5, 1], cls)
-    yield Case("convbits", [nats(Bech32BaseUtils.ConvertBits(b, 8, 5)), 5, 8, 0], cls)
+    if len(b) <= 4200:          # the model's regrouping of a decimal list is quadratic (65 536 values: a minute); relations() covers the longer ones
+        yield Case("convbits", [nats(b), 8, 5, 1], cls)
+        yield Case("convbits", [nats(Bech32BaseUtils.ConvertBits(b, 8, 5)), 5, 8, 0], cls)
     yield Case("scalebytes", [hx(b)], cls)
     if len(b) <= 1700:          # integers travel as decimal text on the request line (CPython refuses conversions beyond 4300 digits)
         yield Case("frombytes", [hx(b), "big"], cls)
@@ -276,9 +277,9 @@ def relations(rng, tier, rpt):
     """decode(encode(b)) == b evaluated on the implementation alone (the literal property clause)."""
     bad = []
     n = nchk = 0
-    for b in byte_strings(rng, "quick") + long_byte_strings(rng, "quick"):
+    for b in byte_strings(rng, "quick") + long_byte_strings(rng, tier):
         n += 1
-        checks = [] if len(b) > B58_LONG_CAP["quick"] else [
+        checks = [] if len(b) > B58_LONG_CAP[tier] else [
             ("b58-btc", lambda: Base58Decoder.Decode(Base58Encoder.Encode(b))),
             ("b58-xrp", lambda: Base58Decoder.Decode(Base58Encoder.Encode(b, Base58Alphabets.RIPPLE), Base58Alphabets.RIPPLE)),
             ("b58chk", lambda: Base58Decoder.CheckDecode(Base58Encoder.CheckEncode(b))),
